@@ -169,6 +169,7 @@ class Scrollable(WidgetDecoration[WrappedWidget]):
         self._trim_top = 0
         self._scroll_action = None
         self._forward_keypress = None
+        self._forward_keypress_for = None
         self._old_cursor_coords = None
         self._rows_max_cached = 0
         self.force_forward_keypress = force_forward_keypress
@@ -289,6 +290,7 @@ class Scrollable(WidgetDecoration[WrappedWidget]):
             # can't see a way to do that.
             self._forward_keypress = ow.selectable()
 
+        self._forward_keypress_for = (size, bool(focus))
         return canv
 
     def keypress(
@@ -297,6 +299,11 @@ class Scrollable(WidgetDecoration[WrappedWidget]):
         key: str,
     ) -> str | None:
         from urwid.command_map import Command
+
+        if self._forward_keypress_for != (size, True) and not self.force_forward_keypress:
+            # _forward_keypress is a by-product of rendering; a render served from the canvas cache does not
+            # update it, so make sure it describes the focused view of this size
+            Scrollable.render.original_fn(self, size, True)
 
         # Maybe offer key to original widget
         if self._forward_keypress or self.force_forward_keypress:
